@@ -193,7 +193,7 @@ class Scheduler:
             self.cv.notify_all()
 
     def _main_quiet(self):
-        if not self.main_gated or self.main_done:
+        if not self.main_gated or self.main_done or getattr(self, 'main_left_loop', False):
             return True
         return self.MAIN in self.parked or (self.main_taken >= self.finished and not self.main_busy)
 
@@ -302,6 +302,10 @@ class _Exec(_cf.ThreadPoolExecutor):
     def shutdown(self, wait=True, **kw):
         if self._sched is not None and wait:
             self._sched.signal_all_submitted()
+            with self._sched.cv:
+                # the main thread now only waits for the workers (it left its collecting loop - normally, or through an exception)
+                self._sched.main_left_loop = True
+                self._sched.cv.notify_all()
         return super().shutdown(wait=wait, **kw)
 
 
